@@ -2,7 +2,8 @@
    sequences and nothing else).  Only statements, each closed by [exact]. *)
 From Coq Require Import NArith List Bool.
 From AV Require Import Generated.Table Spec.Utf8 Spec.Vt Spec.Strip Model.Base Model.Parser Model.Strip
-  Proofs.TableFacts Proofs.StripMachine Proofs.StripSim Proofs.StripStr Proofs.StripPieces Proofs.StripVisible.
+  Proofs.TableFacts Proofs.StripMachine Proofs.StripSim Proofs.StripStr Proofs.StripPieces Proofs.StripVisible
+  Generated.StripFn Proofs.StripGen.
 Import ListNotations.
 Local Open Scope N_scope.
 
@@ -72,3 +73,45 @@ Theorem c01_example :
   strip_bytes_model [27; 91; 10; 51; 50; 109; 88; 226; 27; 91; 109; 195; 169]
   = Some [10; 88; 226; 195; 169].
 Proof. vm_compute. reflexivity. Qed.
+
+(* ---- the tie by translation --------------------------------------------------------- *)
+
+(* Generated/StripFn.v is written on every run by tools/gen_fn_strip.py from the Rust sources of
+   next_str, next_bytes, is_printable_bytes, is_utf8_continuation, Utf8Parser::add (with the two
+   Receiver methods), the Iterator::next methods, StrippedStr::new / StrippedBytes::new,
+   strip_str / strip_bytes and StrippedBytes::into_vec (state_change: Generated/ParserFn.v).
+   One call of the translated scanners computes exactly what the hand model -- the subject of
+   every theorem above -- computes ([bytes_result] / [str_result] drop the offsets the model
+   tracks on top). *)
+Theorem c01_translated_next_bytes_is_model :
+  forall bs off st u, g_next_bytes bs st u = bytes_result (next_bytes bs off st u).
+Proof. exact g_next_bytes_eq. Qed.
+
+Theorem c01_translated_next_str_is_model :
+  forall bs off st, g_next_str bs st = str_result (next_str bs off st).
+Proof. exact g_next_str_eq. Qed.
+
+Theorem c01_translated_utf8_add_is_model :
+  forall u b, g_utf8_add u b = Some (utf8_add u b).
+Proof. exact g_utf8_add_eq. Qed.
+
+(* strip_bytes(data).into_vec(), translated from end to end *)
+Theorem c01_translated_strip_bytes_is_model :
+  forall bs, g_stripped_bytes_into_vec (g_strip_bytes bs) = strip_bytes_model bs.
+Proof. exact g_strip_bytes_into_vec_is_model. Qed.
+
+(* strip_str(data).to_string(): the translated iterator, drained and concatenated
+   (Display::fmt / to_string are std::fmt plumbing: hand-modelled, token-pinned) *)
+Theorem c01_translated_strip_str_is_model :
+  forall bs, g_strip_str_to_string bs = strip_str_model bs.
+Proof. exact g_strip_str_to_string_is_model. Qed.
+
+(* hence the translated code refines the specification *)
+Theorem c01_translated_strip_bytes_refines_spec :
+  forall input, bytes_ok input -> g_stripped_bytes_into_vec (g_strip_bytes input) = Some (spec_strip input).
+Proof. exact translated_strip_bytes_refines_spec. Qed.
+
+Theorem c01_translated_strip_str_refines_spec :
+  forall input, bytes_ok input -> valid_utf8 input = true ->
+  g_strip_str_to_string input = Some (spec_strip input).
+Proof. exact translated_strip_str_refines_spec. Qed.
